@@ -649,7 +649,227 @@ func RunConc(out string) {
 		}
 		t.Ev("final", tr.M{"len": c.Len(), "cap": c.Cap(), "peek": peek})
 	}
+	// gated family: the blocks are wrappers whose exported accessors (Base, NextBase, Used - the only
+	// methods a cache calls) act as a rendezvous: the first goroutine to look at a block inside a cache
+	// operation waits a moment for the other one to get there too.  If an operation examines blocks
+	// outside the cache's write lock, both are then inside at once and whatever is not atomic shows
+	// (double removal, a panic under the lock, Len/Peek out of step); if it holds the lock, the other
+	// cannot arrive, the wait times out and the history is a sequential one.
+	ngated := 1500
+	if tr.Tier() == "thorough" {
+		ngated = 20000
+	}
+	for i := 0; i < ngated; i++ {
+		policy := []string{"LRU", "FIFO", "Random"}[i%3]
+		capN := 2 + rnd.Intn(3)
+		c := newCache(policy, capN)
+		gt := &gate{}
+		nb := capN + 2
+		var bl [][]interface{}
+		var blocks []bgzf.Block
+		gbases := []int64{1000, 2000, 3000, 4000, 5000, 6000, 7000}
+		var allBases []int64
+		for j := 0; j < nb; j++ {
+			base := gbases[j]
+			if j == nb-1 && rnd.Intn(2) == 0 {
+				base = gbases[rnd.Intn(capN)] // the last block duplicates a cached base
+			}
+			used := rnd.Intn(3) > 0
+			bl = append(bl, []interface{}{base, used})
+			blocks = append(blocks, &gblk{Block: bgzf.VerifNewBlock(base, 1+j+1, used), g: gt})
+			allBases = append(allBases, base)
+		}
+		t.Begin(policy+"/gated", tr.M{"policy": policy, "cap": capN, "bases": gbases[:nb], "blocks": bl, "G": 2})
+		idOf := func(b bgzf.Block) int {
+			if b == nil {
+				return 0
+			}
+			for k, x := range blocks {
+				if x == b {
+					return k + 1
+				}
+			}
+			return -1
+		}
+		for j := 1; j <= capN; j++ {
+			t.Ev("call", tr.M{"g": 1, "op": "put", "id": j})
+			ev, ret := c.Put(blocks[j-1])
+			t.Ev("ret", tr.M{"g": 1, "op": "put", "evid": idOf(ev), "ret": ret})
+		}
+		type sev struct {
+			seq int64
+			ev  string
+			m   tr.M
+		}
+		var seq int64
+		evs := make([][]sev, 3)
+		rec := func(g int, ev string, m tr.M) {
+			evs[g] = append(evs[g], sev{atomic.AddInt64(&seq, 1), ev, m})
+		}
+		// both goroutines aim at the same cached block most of the time
+		target := gbases[rnd.Intn(capN)]
+		pick := func() func(g int) {
+			base := target
+			if rnd.Intn(4) == 0 {
+				base = gbases[rnd.Intn(nb)]
+			}
+			switch k := rnd.Intn(10); {
+			case k < 4:
+				return func(g int) {
+					rec(g, "call", tr.M{"g": g, "op": "get", "base": base})
+					b := c.Get(base)
+					rid, rbase := idOf(b), int64(0)
+					if b != nil {
+						rbase = b.(*gblk).Block.Base()
+					}
+					rec(g, "ret", tr.M{"g": g, "op": "get", "r": rid, "rbase": rbase})
+				}
+			case k < 6:
+				id := capN + 1 + rnd.Intn(2)
+				return func(g int) {
+					id := id + 0
+					if g == 2 && id == capN+1 {
+						id = capN + 2 // the two goroutines never put the same block object
+					} else if g == 1 && id == capN+2 {
+						id = capN + 1
+					}
+					rec(g, "call", tr.M{"g": g, "op": "put", "id": id})
+					ev, ret := c.Put(blocks[id-1])
+					rec(g, "ret", tr.M{"g": g, "op": "put", "evid": idOf(ev), "ret": ret})
+				}
+			case k < 7:
+				return func(g int) {
+					rec(g, "call", tr.M{"g": g, "op": "peek", "base": base})
+					ex, next := c.Peek(base)
+					pid := 0
+					if ex {
+						pid = int(next-base) - 1
+					}
+					rec(g, "ret", tr.M{"g": g, "op": "peek", "exists": ex, "id": pid})
+				}
+			case k < 8:
+				return func(g int) {
+					rec(g, "call", tr.M{"g": g, "op": "len"})
+					l := c.Len()
+					rec(g, "ret", tr.M{"g": g, "op": "len", "n": l})
+				}
+			case k < 9:
+				nn := 1 + rnd.Intn(2)
+				return func(g int) {
+					rec(g, "call", tr.M{"g": g, "op": "drop", "n": nn})
+					c.Drop(nn)
+					rec(g, "ret", tr.M{"g": g, "op": "drop"})
+				}
+			default:
+				nn := 1 + rnd.Intn(capN)
+				return func(g int) {
+					rec(g, "call", tr.M{"g": g, "op": "resize", "n": nn})
+					c.Resize(nn)
+					rec(g, "ret", tr.M{"g": g, "op": "resize"})
+				}
+			}
+		}
+		opsG := []func(int){pick(), pick()}
+		var ready, gateOpen int32
+		var wg sync.WaitGroup
+		panics := make([]string, 3)
+		atomic.StoreInt32(&gt.budget, 4)
+		res := watch.Call(marker, func() {
+			wg.Add(2)
+			for g := 1; g <= 2; g++ {
+				go func(g int) {
+					defer wg.Done()
+					defer func() {
+						if x := recover(); x != nil {
+							panics[g] = fmt.Sprint(x)
+						}
+					}()
+					atomic.AddInt32(&ready, 1)
+					for atomic.LoadInt32(&gateOpen) == 0 {
+					}
+					opsG[g-1](g)
+				}(g)
+			}
+			for atomic.LoadInt32(&ready) < 2 {
+				runtime.Gosched()
+			}
+			atomic.StoreInt32(&gt.armed, 1)
+			atomic.StoreInt32(&gateOpen, 1)
+			wg.Wait()
+			atomic.StoreInt32(&gt.armed, 0)
+		})
+		var all []sev
+		for _, e := range evs {
+			all = append(all, e...)
+		}
+		sort.Slice(all, func(a, b int) bool { return all[a].seq < all[b].seq })
+		for _, e := range all {
+			t.Ev(e.ev, e.m)
+		}
+		bad := false
+		for g := 1; g <= 2; g++ {
+			if panics[g] != "" {
+				t.Ev("panic", tr.M{"g": g, "detail": panics[g], "sig": policy + "/gated/panic"})
+				bad = true
+			}
+		}
+		if res.Res != "ok" {
+			t.Ev("abort", tr.M{"res": res.Res, "sig": policy + "/gated/" + res.Res, "detail": res.Detail})
+			continue
+		}
+		if bad {
+			continue
+		}
+		var peek [][]interface{}
+		var flen, fcap int
+		fres := watch.Call(marker, func() {
+			for _, base := range gbases[:nb] {
+				ex, next := c.Peek(base)
+				id := 0
+				if ex {
+					id = int(next-base) - 1
+				}
+				peek = append(peek, []interface{}{base, ex, id})
+			}
+			flen, fcap = c.Len(), c.Cap()
+		})
+		if fres.Res != "ok" {
+			t.Ev("abort", tr.M{"res": fres.Res, "sig": policy + "/gated/final-" + fres.Res, "detail": fres.Detail})
+			continue
+		}
+		t.Ev("final", tr.M{"len": flen, "cap": fcap, "peek": peek})
+	}
 	tr.Summary(tr.M{"scenarios": t.Scen, "lines": t.Lines, "sigs": t.Sigs()})
 }
 
 var _ = fmt.Sprint
+
+
+// gate is the rendezvous of the gated family; budget bounds the number of waits per scenario.
+type gate struct {
+	armed, arrived, budget int32
+}
+
+func (g *gate) meet() {
+	if atomic.LoadInt32(&g.armed) == 0 || atomic.AddInt32(&g.budget, -1) < 0 {
+		return
+	}
+	n := atomic.AddInt32(&g.arrived, 1)
+	if n%2 == 0 {
+		return // the one that was waited for goes straight on
+	}
+	deadline := time.Now().Add(2 * time.Millisecond)
+	for atomic.LoadInt32(&g.arrived) < n+1 && time.Now().Before(deadline) {
+		runtime.Gosched()
+	}
+}
+
+// gblk wraps a Block; the exported accessors are the rendezvous points.
+type gblk struct {
+	bgzf.Block
+	g *gate
+}
+
+func (b *gblk) Base() int64     { b.g.meet(); return b.Block.Base() }
+func (b *gblk) NextBase() int64 { b.g.meet(); return b.Block.NextBase() }
+func (b *gblk) Used() bool      { b.g.meet(); return b.Block.Used() }
